@@ -46,6 +46,13 @@ def _decode_document_lang(value: Any) -> Optional[str]:
   return value
 
 
+def _decode_log_level(value: Any) -> Optional[str]:
+  """Decodes the `log_level` configuration value: the name of a logging level as a string, or None"""
+  if value is not None and not isinstance(value, str):
+    raise ValueError(f"Invalid log_level '{value}' value. Expect: 'INFO', 'WARN' or 'ERROR'.")
+  return value
+
+
 class ModuleConfiguration:
   """Base class for module configurations"""
 
@@ -100,7 +107,7 @@ class ModuleConfiguration:
 @dataclass
 class GeneralConfiguration(ModuleConfiguration):
   """TT general configuration"""
-  log_level: Optional[str] = "INFO"
+  log_level: Optional[str] = field(default="INFO", metadata={"decoder": _decode_log_level})
   progress_bar: Optional[bool] = field(default=True, metadata={"decoder": decode_bool})
   document_lang: Optional[str] = field(default=None, metadata={"decoder": _decode_document_lang})
 
